@@ -567,6 +567,41 @@ TraceFramed ==
                                /\ d.counts[4] \in {Ev.counts[4], Ev.counts[4] + 1}),
                <<"output", i, IF d.ok THEN <<"end", d.end, "len", Len(o[2]), "counts", d.counts>> ELSE d.why>>)
 
+(* RespRun (C13, sampled on real sockets): a real SimpleMdnsResponder serving e.records answered e.queries sent   *)
+(* over the loopback multicast group; per query and attempt, a.uni = the replies that reached a plain socket (only  *)
+(* unicast replies can), a.multi = those that reached a socket joined to the group.  Content is judged with the    *)
+(* reply bounds of Store.tla at every observed reply; the destination must be unicast iff some question asked for  *)
+(* it; a query that must be answered must be seen answered in at least one attempt (datagrams may be lost).        *)
+RespReplies(a) == [i \in 1 .. (Len(a.uni) + Len(a.multi)) |-> IF i <= Len(a.uni) THEN a.uni[i] ELSE a.multi[i - Len(a.uni)]]
+TraceRespRun ==
+  /\ Ev.ev = "RespRun"
+  /\ Rule(l, "NoPanic", Ev.panics = <<>>, <<"responder panicked", Ev.panics>>)
+  /\ LET auth == {KeyOf(Ev.records[i]) : i \in 1 .. Len(Ev.records)} IN
+     \A qi \in 1 .. Len(Ev.queries) :
+       LET q == Ev.queries[qi]
+           upper == UpperAnswers(auth, q.qd)
+           lower == LowerAnswers(auth, q.qd)
+           someQU == \E i \in 1 .. Len(q.qd) : q.qd[i].unicast IN
+       /\ \A ai \in 1 .. Len(q.attempts) :
+            LET a == q.attempts[ai]
+                reps == RespReplies(a) IN
+            /\ \A ri \in 1 .. Len(reps) :
+                 LET p == reps[ri] IN
+                 IF "unparsed" \in DOMAIN p
+                 THEN Rule(l, "ReplyMeta", FALSE, <<"a reply that does not parse", qi, Ev.flavour>>)
+                 ELSE LET ans == {KeyOf(p.an[i]) : i \in 1 .. Len(p.an)}
+                          add == {KeyOf(p.ar[i]) : i \in 1 .. Len(p.ar)} IN
+                      /\ Rule(l, "ReplyUpper", ans \subseteq upper, <<"query", qi, Ev.flavour, "not-allowed", {<<k.name, k.type, k.class>> : k \in ans \ upper}>>)
+                      /\ Rule(l, "ReplyLower", lower \subseteq ans, <<"query", qi, Ev.flavour, "missing", {<<k.name, k.type, k.class>> : k \in lower \ ans}>>)
+                      /\ Rule(l, "ReplyAddl", \A x \in add : AdditionalOK(auth, ans, x),
+                              <<"query", qi, Ev.flavour, "additional", {<<x.name, x.type>> : x \in {y \in add : ~AdditionalOK(auth, ans, y)}}>>)
+                      /\ Rule(l, "ReplyMeta", p.id = a.id /\ Bit(p.fs, 15) /\ Len(p.an) > 0, <<"query", qi, Ev.flavour, "id", p.id, "fs", p.fs>>)
+            \* where the reply went
+            /\ Rule(l, "ReplyMeta", (a.uni # <<>> => someQU) /\ (a.multi # <<>> => ~someQU),
+                    <<"query", qi, Ev.flavour, "unicast-requested", someQU, "unicast-replies", Len(a.uni), "multicast-replies", Len(a.multi)>>)
+       /\ Rule(l, "E2EReplied", (lower # {} /\ q.attempts # <<>>) => \E ai \in 1 .. Len(q.attempts) : q.attempts[ai].uni # <<>> \/ q.attempts[ai].multi # <<>>,
+               <<"a query that must be answered got no reply in any attempt", qi, Ev.flavour>>)
+
 (* ApiTrace (C02, C08): an API history of the builder machine (Builder.tla) was replayed    *)
 (* on a real Packet; e.states[i] is the projection of the real packet after call i       *)
 TraceApi ==
@@ -730,7 +765,7 @@ Stateless ==
            \/ TraceNameNew \/ TraceLabelNew \/ TraceNameRel
            \/ TraceTxtSplit \/ TraceTxtAttrs \/ TraceTxtRaw \/ TraceTxtLong \/ TraceCStrNew
            \/ TraceDiscover \/ TraceEscape \/ TraceDatagram \/ TraceNetRun
-           \/ TraceApi \/ TraceFramed \/ TraceE2E \/ TraceSvcbApi \/ TraceValueCmp \/ TraceParse \/ TracePeek \/ TraceInspect \/ TraceSinkBuild \/ TraceRoundTrip \/ TraceReparse
+           \/ TraceApi \/ TraceRespRun \/ TraceFramed \/ TraceE2E \/ TraceSvcbApi \/ TraceValueCmp \/ TraceParse \/ TracePeek \/ TraceInspect \/ TraceSinkBuild \/ TraceRoundTrip \/ TraceReparse
            \/ TraceCodeConv \/ TraceMnemonics \/ TraceMatchType \/ TraceMatchClass
 
 Next == /\ l <= Len(Rec)
